@@ -33,6 +33,7 @@ class Path:
     def __init__(self):
         self.mem = {}            # place -> term
         self.conds = []          # (term, '==', v) | (term, 'notin', (v..))
+        self.cond_term = {}      # key -> term
         self.events = []         # dicts
         self.yields = collections.Counter()
         self.steps = 0
@@ -45,6 +46,7 @@ class Path:
         p = Path()
         p.mem = dict(self.mem)
         p.conds = list(self.conds)
+        p.cond_term = dict(self.cond_term)
         p.events = list(self.events)
         p.yields = collections.Counter(self.yields)
         p.steps = self.steps
@@ -199,11 +201,16 @@ class Executor:
         # plain move/copy keeps sub-places
         if rv.startswith("copy ") or rv.startswith("move "):
             body = rv[5:]
+            mc = re.match(r"^(.*?) as (.*) \((PointerCoercion)\(.*\)\)$", body)
+            if mc:
+                x = self.read(parse_place(mc.group(1)), path)
+                self.write(dst, ("cast", x, mc.group(2)), path)
+                return
             if " as " in body and body.rstrip().endswith(")") and re.search(r"\((\w+)\)$", body):
                 # cast: `copy X as T (Kind)`
                 m = re.match(r"(.*) as (.*) \((\w+)\)$", body)
                 x = self.read(parse_place(m.group(1)), path)
-                if m.group(3) in ("Transmute", "PtrToPtr", "IntToInt", "Unsize", "PointerCoercion"):
+                if m.group(3) in ("Transmute", "PtrToPtr", "IntToInt", "Unsize", "PointerCoercion", "IntToFloat", "FloatToInt", "PointerExposeProvenance", "PointerWithExposedProvenance"):
                     self.write(dst, ("cast", x, m.group(2)), path)
                     return
             try:
@@ -422,6 +429,7 @@ class Executor:
                     bb = nxt
                     continue
                 key = tstr(v)
+                path.cond_term[key] = v
                 known = None
                 for (kt, op, val) in path.conds:
                     if kt == key and op == "==":
@@ -570,6 +578,12 @@ class Executor:
             if a[0] == "ref":
                 return ("clone", self.read(a[1], path))
             return ("clone", a)
+        if short.endswith("::split_at") and len(args) == 2 and args[1][0] == "const":
+            k = self.const_int(args[1])
+            if k is not None:
+                s0 = args[0]
+                path.events.append({"kind": "require", "what": "split_at", "slice": s0, "at": k})
+                return ("tuple", (("subslice", s0, 0, k), ("restslice", s0, k)))
         if short.endswith("::checked_add") and len(args) == 2:
             return ("checked", "Add", args[0], args[1])
         if short.endswith("Into::into") or short.endswith("From::from"):
